@@ -75,7 +75,7 @@ C["C35"] = dict(harnesses=[
          "link value of 1..T tokens from {_, layers.x, layers.y, layers.w, scenarios.s, layers.z, steps.x, LAYERS.x, layers.X} declared on the root, in layer x, in layer x.y or in scenario s of a fixed 5-board template: stored link == absolute path of an existing board computed by an independent reference, else dropped",
          {"T": 2}, {"T": 3})],
     stubs=[FMT], outside=["links inside imported files (rebasing)", "rewriting of links to output files (d2cli relink)", "board keywords in upper case inside links"])
-OB = "6 base diagrams with uniquely labelled elements (flat, container, parallel connections, deep nesting, endpoints existing only through a connection, chain and connection inside a container) plus a family of containers whose children and outside siblings are named from {x, x 2, x 3, y}"
+OB = "6 base diagrams with uniquely labelled elements (flat, container, parallel connections, deep nesting, endpoints existing only through a connection, chain and connection inside a container) plus a family of containers (at the root or nested in a parent, children declared on their own or only as endpoints of a connection) whose children and outside siblings are named from the first CN of {x, x 2, y, x 3}"
 C["C36"] = dict(harnesses=[
     orc("VerifC36Stable", ["edited", "refused"],
         OB + "; one edit (HIST=2: two) out of Create/Set/Delete/Rename/Move/ReconnectEdge with keys from 12 object keys and 11 connection keys and a value of 0..NV characters over xX1 .'\"$#\\n- : the text of the returned graph compiles to the same projection and is a formatter fixpoint",
@@ -89,18 +89,23 @@ C["C37"] = dict(harnesses=[
 C["C38"] = dict(harnesses=[
     orc("VerifC38Delete", ["object", "edge", "noop"],
         OB + "; Delete of every object/connection key of the menus: target gone, attached connections gone, children hoisted to the target's parent, later parallel connections renumbered, everything else unchanged (elements followed by label)",
-        {"COLL": 1}, {"COLL": 1})],
+        {"COLL": 1, "CN": 3}, {"COLL": 1, "CN": 4})],
     stubs=[FMT], outside=["deleting attributes (reserved keys)", "diagrams outside the stated bases"])
 C["C39"] = dict(harnesses=[
     orc("VerifC39Move", ["moved", "refused"],
         "first 4 base diagrams and the collision family; Rename to one of z,b,a,B,'x y',c and Move to any key of the menu (not into the object's own subtree) with and without descendants: all objects and connections kept with labels, shapes, endpoints; only the moved object and followers change ID; unmoved children go to the former parent; only containers on the destination path are created",
-        {"BASES": 4, "COLL": 0}, {"BASES": 4, "COLL": 1}, twall=7200)],
+        {"BASES": 4, "COLL": 1, "CN": 3}, {"BASES": 4, "COLL": 1, "CN": 4}, twall=7200)],
     stubs=[FMT], outside=["moving an object into its own subtree (not a valid move; d2oracle does not reject it)", "diagrams whose labels are implicit"])
 C["C40"] = dict(harnesses=[
     orc("VerifC40Deltas", ["predicted", "refused"],
         "first 4 base diagrams and the collision family; DeleteIDDeltas/RenameIDDeltas/MoveIDDeltas/ReconnectEdgeIDDeltas against the edit itself: every surviving element has the predicted ID or keeps its own, nothing is predicted for removed or unknown elements",
-        {"BASES": 4, "COLL": 0}, {"BASES": 4, "COLL": 1}, twall=7200)],
+        {"BASES": 4, "COLL": 1, "CN": 3}, {"BASES": 4, "COLL": 1, "CN": 4}, twall=7200)],
     stubs=[FMT], outside=["diagrams whose labels are implicit", "edits addressed to nested boards"])
+C["C41"] = dict(harnesses=[
+    orc("VerifC41Boards", ["edited", "refused"],
+        "a diagram with a root board, layers l and k and scenario s; Create/Set/Delete/Rename/Move addressed to l, k or s with 12 keys (own, foreign, missing, connection keys): every other board's projection is unchanged whether the edit succeeds or is refused, and the result is compilable and formatter-stable",
+        {}, {})],
+    stubs=[FMT], outside=["edits addressed to the root board (boards inheriting from it legitimately change)", "steps, nested boards of nested boards, imported boards"])
 C["C43"] = dict(harnesses=[
     h("oss.terrastruct.com/d2/lib/urlenc", ["harness/lib/urlenc/zz_verif_c43.go"], "VerifC43RoundTrip", ["encoded"],
       "urlenc.Encode then Decode on every byte string of length 0..N: result equals the input and the encoded form is within [A-Za-z0-9_=-]; compress/flate replaced in the engine by a stored-block DEFLATE coder/decoder written in the harness",
